@@ -735,6 +735,27 @@ def subst_locals(func_node: ast.AST, expr: ast.AST, depth: int = 3) -> ast.AST:
                         if isinstance(x, ast.Name):
                             counts[x.id] = counts.get(x.id, 0) + 2
     single = {k: v for k, v in vals.items() if counts.get(k) == 1 and k not in params}
+    # `if c: x = A else: x = B` (the only two assignments of x, one per branch of the same if/else, outside loops) is the
+    # conditional expression `A if c else B`
+    def _one_assign(block, name):
+        hits = [st for st in block if isinstance(st, ast.Assign) and len(st.targets) == 1 and isinstance(st.targets[0], ast.Name) and st.targets[0].id == name]
+        nested = sum(1 for st in block for x in ast.walk(st) if isinstance(x, ast.Name) and x.id == name and isinstance(x.ctx, ast.Store))
+        return hits[0].value if len(hits) == 1 and nested == 1 else None
+
+    in_loop = set()
+    for n in ast.walk(func_node):
+        if isinstance(n, (ast.For, ast.AsyncFor, ast.While)):
+            for x in ast.walk(n):
+                in_loop.add(id(x))
+    for n in ast.walk(func_node):
+        if isinstance(n, ast.If) and n.orelse and id(n) not in in_loop:
+            for st in n.body:
+                if isinstance(st, ast.Assign) and len(st.targets) == 1 and isinstance(st.targets[0], ast.Name):
+                    name = st.targets[0].id
+                    if counts.get(name) == 2 and name not in params and name not in single:
+                        a, b = _one_assign(n.body, name), _one_assign(n.orelse, name)
+                        if a is not None and b is not None and not any(isinstance(x, ast.Name) and x.id == name for x in ast.walk(n.test)):
+                            single[name] = ast.IfExp(test=n.test, body=a, orelse=b)
 
     class _S(ast.NodeTransformer):
         def visit_Name(self, node):
